@@ -1,6 +1,7 @@
 package checks
 
 import (
+	"bytes"
 	"encoding/json"
 	"errors"
 	"fmt"
@@ -15,7 +16,7 @@ import (
 )
 
 type rwOp struct {
-	Op   string `json:"op"` // header | write | flush | before | read
+	Op   string `json:"op"` // header | write | copy (io.Copy from a plain reader) | flush | before | read
 	Code int    `json:"code,omitempty"`
 	N    int    `json:"n,omitempty"`
 }
@@ -23,9 +24,10 @@ type rwOp struct {
 type rwCase struct {
 	Method   string  `json:"method"`
 	Flusher  bool    `json:"underlying_flusher"`
-	FailAt   int     `json:"fail_at,omitempty"`   // the k-th Write reaching the underlying writer misbehaves (0 = never)
-	FailMode string  `json:"fail_mode,omitempty"` // short | err | shorterr
-	Via      string  `json:"via"`                 // direct (NewResponseWriter) | handler (Context.ResponseWriter inside a request)
+	ReaderFr bool    `json:"underlying_reader_from,omitempty"` // the underlying writer also implements io.ReaderFrom (as net/http's does)
+	FailAt   int     `json:"fail_at,omitempty"`                // the k-th Write reaching the underlying writer misbehaves (0 = never)
+	FailMode string  `json:"fail_mode,omitempty"`              // short | err | shorterr
+	Via      string  `json:"via"`                              // direct (NewResponseWriter) | handler (Context.ResponseWriter inside a request)
 	Ops      []rwOp  `json:"ops"`
 	Other    *rwCase `json:"interleaved_second_writer,omitempty"` // a second writer alive at the same time, its operations interleaved one by one (direct only)
 }
@@ -73,6 +75,24 @@ type rwSpyF struct{ *rwSpy }
 
 func (s rwSpyF) Flush() { *s.log = append(*s.log, "F") }
 
+// rwSpyRF is an underlying writer that, like net/http's, also implements io.ReaderFrom.
+type rwSpyRF struct{ *rwSpy }
+
+func (s rwSpyRF) ReadFrom(r io.Reader) (int64, error) {
+	b, _ := io.ReadAll(r)
+	n, err := s.rwSpy.Write(b)
+	return int64(n), err
+}
+
+type rwSpyRFF struct{ rwSpyRF }
+
+func (s rwSpyRFF) Flush() { *s.log = append(*s.log, "F") }
+
+// plainReader hides every optional interface of the reader (no WriteTo), as a file or a proxied body would.
+type plainReader struct{ r io.Reader }
+
+func (p plainReader) Read(b []byte) (int, error) { return p.r.Read(b) }
+
 // rwObs is everything observed while driving one sequence.
 type rwObs struct {
 	log      []string // calls reaching the underlying writer + hook runs, in order
@@ -107,6 +127,14 @@ func (st *rwStepper) step() bool {
 			e = 1
 		}
 		obs.rets = append(obs.rets, [2]int{n, e})
+	case "copy":
+		// streaming a body: io.Copy picks ReadFrom if the destination offers it
+		n, err := io.Copy(rw, plainReader{bytes.NewReader(make([]byte, op.N))})
+		e := 0
+		if err != nil {
+			e = 1
+		}
+		obs.rets = append(obs.rets, [2]int{int(n), e})
 	case "flush":
 		rw.Flush()
 	case "before":
@@ -160,6 +188,16 @@ func rwVerdict(c *rwCase, obs *rwObs) string {
 		switch op.Op {
 		case "header":
 			trigger(op.Code)
+		case "copy":
+			if op.N == 0 {
+				// io.Copy of an empty source performs no write at all
+				if wi >= len(obs.rets) || obs.rets[wi] != [2]int{0, 0} {
+					return fmt.Sprintf("op %d: copying an empty body returned %v", k, obs.rets)
+				}
+				wi++
+				break
+			}
+			fallthrough
 		case "write":
 			trigger(200)
 			wantN, wantErr := 0, 0
@@ -182,7 +220,9 @@ func rwVerdict(c *rwCase, obs *rwObs) string {
 			if wi >= len(obs.rets) {
 				return fmt.Sprintf("op %d: write result not observed", k)
 			}
-			if obs.rets[wi] != [2]int{wantN, wantErr} {
+			// io.Copy turns a short count into io.ErrShortWrite (also the 0 reported for HEAD): its result is
+			// io's business, only what was forwarded and recorded is judged for copy
+			if op.Op == "write" && obs.rets[wi] != [2]int{wantN, wantErr} {
 				return fmt.Sprintf("op %d Write(%d bytes): returned (n=%d, err=%v), the underlying writer reported (n=%d, err=%v)", k, op.N, obs.rets[wi][0], obs.rets[wi][1] == 1, wantN, wantErr == 1)
 			}
 			wi++
@@ -262,6 +302,7 @@ func genRWCase(rng *rand.Rand) *rwCase {
 	c := &rwCase{
 		Method:   []string{"GET", "HEAD", "POST", "HEAD", "PUT", "DELETE", "PATCH", "OPTIONS", "CONNECT", "TRACE", "GET"}[rng.Intn(11)],
 		Flusher:  rng.Intn(2) == 0,
+		ReaderFr: rng.Intn(2) == 0,
 		FailAt:   []int{0, 0, 1, 2, 3}[rng.Intn(5)],
 		FailMode: []string{"short", "err", "shorterr"}[rng.Intn(3)],
 		Via:      "direct",
@@ -286,8 +327,14 @@ func genRWCase(rng *rand.Rand) *rwCase {
 		switch rng.Intn(8) {
 		case 0, 1:
 			c.Ops = append(c.Ops, rwOp{Op: "header", Code: 100 + rng.Intn(500)})
-		case 2, 3:
+		case 2:
 			c.Ops = append(c.Ops, rwOp{Op: "write", N: rng.Intn(65)})
+		case 3:
+			if rng.Intn(2) == 0 {
+				c.Ops = append(c.Ops, rwOp{Op: "copy", N: rng.Intn(65)})
+			} else {
+				c.Ops = append(c.Ops, rwOp{Op: "write", N: rng.Intn(65)})
+			}
 		case 4:
 			c.Ops = append(c.Ops, rwOp{Op: "flush"})
 		case 5, 6:
@@ -305,7 +352,12 @@ func judgeRW(w *core.W, c *rwCase) {
 	var otherObs *rwObs
 	spy := &rwSpy{h: http.Header{}, log: &obs.log, failAt: c.FailAt, mode: c.FailMode}
 	var under http.ResponseWriter = spy
-	if c.Flusher {
+	switch {
+	case c.Flusher && c.ReaderFr:
+		under = rwSpyRFF{rwSpyRF{spy}}
+	case c.ReaderFr:
+		under = rwSpyRF{spy}
+	case c.Flusher:
 		under = rwSpyF{spy}
 	}
 	func() {
